@@ -187,7 +187,7 @@ theorem endFailuresReported_once (f : Faults) (b : Body) : endFailuresReported (
   have hall := runBody_all b
   have h1 := not_mem_of_all hall (.commit false) rfl
   have h2 := not_mem_of_all hall (.rollback false) rfl
-  unfold transactOnce endFailuresReported reports
+  unfold transactOnce endFailuresReported retIs
   generalize (runBody b).1 = evs at *
   generalize (runBody b).2 = out at *
   cases f.begin <;> cases out <;> cases f.commit <;> cases f.rollback <;> cases f.rollbackPanics <;>
@@ -207,12 +207,27 @@ theorem orderlyReturn_once (f : Faults) (b : Body) : orderlyReturn (transactOnce
   cases f.begin <;> cases out <;> cases f.rollbackPanics <;> cases f.commitPanics <;>
     simp [getLast?_cons_snoc]
 
+theorem beginFailureReported_once (f : Faults) (b : Body) : beginFailureReported (transactOnce f b) = true := by
+  have hall := runBody_all b
+  have h1 := not_mem_of_all hall (.begin false) rfl
+  have h2 := any_false_of_all (p := isBeginBad) (q := isStmt) (by intro e; cases e <;> simp) _ hall
+  unfold transactOnce beginFailureReported retIs
+  generalize (runBody b).1 = evs at *
+  generalize (runBody b).2 = out at *
+  cases f.begin <;> cases out <;> cases f.rollbackPanics <;> cases f.commitPanics <;>
+    simp [h1, h2, Err.of]
+
 theorem holds_once (f : Faults) (b : Body) : holds (transactOnce f b) = true := by
   simp only [holds, beginsOnce_once, endsExactlyOnce_once, bodyRunsIffBegun_once, commitIffBodyOk_once,
     rollbackIffBodyFailed_once, panicReported_once, nilIffCommitOk_once, endFailuresReported_once,
-    bodyErrorReported_once, orderlyReturn_once, Bool.and_self]
+    bodyErrorReported_once, orderlyReturn_once, beginFailureReported_once, Bool.and_self]
 
 theorem log_once_ne_nil (f : Faults) (b : Body) : (transactOnce f b).log ≠ [] := by
+  unfold transactOnce
+  cases f.begin <;> simp
+  split <;> split <;> simp
+
+theorem log_once_has_begin (f : Faults) (b : Body) : (transactOnce f b).log.any isBegin = true := by
   unfold transactOnce
   cases f.begin <;> simp
   split <;> split <;> simp
@@ -277,7 +292,7 @@ theorem badPrefix_append (n : Nat) (l m : List Ev) : badPrefix n l ++ m = badPre
   | zero => rfl
   | succ n ih => simp [badPrefix, ih]
 
-theorem holds_badPrefix (r : Result) (n : Nat) (hne : r.log ≠ []) :
+theorem holds_badPrefix (r : Result) (n : Nat) (hne : r.log ≠ []) (hb : r.log.any isBegin = true) :
     holds { r with log := badPrefix n r.log } = holds r := by
   have e1 : beginsOnce { r with log := badPrefix n r.log } = beginsOnce r := by
     simp only [beginsOnce, count, filter_badPrefix isBegin rfl, dropWhile_badPrefix] <;> rfl
@@ -294,12 +309,15 @@ theorem holds_badPrefix (r : Result) (n : Nat) (hne : r.log ≠ []) :
   have e7 : nilIffCommitOk { r with log := badPrefix n r.log } = nilIffCommitOk r := by
     simp only [nilIffCommitOk, contains_badPrefix (.commit true) (by simp)] <;> rfl
   have e8 : endFailuresReported { r with log := badPrefix n r.log } = endFailuresReported r := by
-    simp only [endFailuresReported, reports, contains_badPrefix (.commit false) (by simp),
+    simp only [endFailuresReported, retIs, contains_badPrefix (.commit false) (by simp),
       contains_badPrefix (.rollback false) (by simp)] <;> rfl
   have e9 : bodyErrorReported { r with log := badPrefix n r.log } = bodyErrorReported r := rfl
+  have e11 : beginFailureReported { r with log := badPrefix n r.log } = beginFailureReported r := by
+    simp [beginFailureReported, retIs, mem_badPrefix (.begin false) (by simp : Ev.begin false ≠ .beginBad),
+      any_badPrefix isBegin rfl, hb]
   have e10 : orderlyReturn { r with log := badPrefix n r.log } = orderlyReturn r := by
     simp only [orderlyReturn, getLast?_badPrefix n r.log hne] <;> rfl
-  simp only [holds, e1, e2, e3, e4, e5, e6, e7, e8, e9, e10]
+  simp only [holds, e1, e2, e3, e4, e5, e6, e7, e8, e9, e10, e11]
 
 /-! ### … hence of `transactOnConn` and of `TransactCtx` (breaker + context + connection provider around it) -/
 
@@ -307,7 +325,7 @@ theorem holds_onConn (f : Faults) (b : Body) : holds (transactOnConn f b) = true
   unfold transactOnConn
   split
   · decide
-  · rw [holds_badPrefix _ _ (log_once_ne_nil f b)]; exact holds_once f b
+  · rw [holds_badPrefix _ _ (log_once_ne_nil f b) (log_once_has_begin f b)]; exact holds_once f b
 
 /-- none of the clauses looks at what the breaker was told -/
 theorem holds_mark (r : Result) (m : Option Bool) : holds { r with mark := m } = holds r := rfl
